@@ -876,7 +876,9 @@ fn exec_res(line: &str, t: &[&str], rec: &mut Recorder) {
             }
             if let Some(ip) = r.data.ip_addr() {
                 if denied(&case.deny_ans, &case.allow_ans, &ip) {
-                    rec.fail(idx, format!("query {k}: returned address {} which the answer filter denies", ip_tok(&ip)), "");
+                    // negative outcomes skip the pool's answer filter as well (same class as the bailiwick filter)
+                    let class = if o.class != "ok" { CLASS_NEG } else { "" };
+                    rec.fail(idx, format!("query {k}: returned address {} which the answer filter denies ({})", ip_tok(&ip), o.class), class);
                 }
             }
         }
